@@ -193,6 +193,8 @@ def err_class(r):
 def work(job):
     if job[1] == "created_parent":
         return work_created((job[0], job[2], job[3]))
+    if job[1] == "set_attribute_node":
+        return work_attr((job[0], job[2], job[3], job[4]))
     prop, kinds, gc, action, who, new_idx, ref_sel, timeout_s = job
     out = {"job": job[1:7], "status": "holds", "paths": 0, "queries": 0, "error": None, "fns": {}, "skipped": False}
     t0 = time.time()
@@ -474,6 +476,126 @@ def work_created(job):
     return out
 
 
+def work_attr(job):
+    """set_attribute_node on P: P has `nattr` attributes and the children `kinds`; the new attribute's name is symbolic
+    (it may or may not be the name of an existing one).  C14: keys along the walk element -> its attributes -> its children."""
+    prop, nattr, kinds, timeout_s = job
+    out = {"job": (kinds, None, "set_attribute_node", ("attrs%d" % nattr,), None, None), "status": "holds", "paths": 0, "queries": 0,
+           "error": None, "fns": {}, "skipped": False}
+    t0 = time.time()
+    try:
+        I = K.new_interp("debug", max_paths=4000)
+        I.track_borrows = True
+        st0 = build(kinds, None)
+        names = [K.sym_str("an%d_" % i, 1) for i in range(nattr + 1)]
+        I.assume(z3.And(*st0.cons))
+        I.assume(sym.to_z3(And(*[c for _, c in names])))
+        # existing attributes of one element have different names
+        for i in range(nattr):
+            for j in range(i + 1, nattr):
+                I.assume(sym.to_z3(Not(sym.ceq(names[i][0][0].c, names[j][0][0].c))))
+        extra_ids = [z3.BitVec("id_attr%d" % i, 64) for i in range(nattr + 1)]
+        I.assume(z3.And(z3.Distinct(*(extra_ids + list(st0.ids.values()))), *[x != 0 for x in extra_ids], *[z3.ULT(x, 1 << 62) for x in extra_ids]))
+        holder = {}
+
+        def owner_doc(I, recv):
+            return Some(1)
+        I.mstubs = {("Context", "document"): lambda I, c: holder["st"].document, ("Context", "add_item"): lambda I, c, n: kernel.UNIT,
+                    ("Context", "node"): lambda I, c, i: NONE}
+        for domt, _ in DOM_T.values():
+            I.mstubs[(domt, "owner_document")] = owner_doc
+
+        def thunk(I):
+            st = build(kinds, None)
+            holder["st"] = st
+            P = st.nodes["P"][1]
+            attrs = []
+            order = st.ordering.fields["order"]
+            pos = [k_ for k_, inf in enumerate(order) if inf is st.nodes["P"][2]][0]
+            for i in range(nattr + 1):
+                info = K.mk_obj("ContextInfo", K.INFO, id=extra_ids[i], order_cache=0, order_version=0)
+                ctx = K.mk_obj("Context", K.INFO, info=info, ordering=st.ordering, registry=st.registry)
+                a = K.mk_obj("XmlAttribute", K.INFO, local_name=SStr(K.sym_str("an%d_" % i, 1)[0]), prefix=NONE, values=SVec(), context=ctx,
+                             parent_id=Some(st.ids["P"]) if i < nattr else NONE, _name="attr%d" % i)
+                attrs.append((a, info))
+                if i < nattr:
+                    P.fields["attributes"].append(K.mk_enum("XmlItem", K.INFO, "Attribute", a))
+                    order.insert(pos + 1 + i, info)
+            recv = K.mk_obj("XmlElement", K.DOM, element=P)
+            new_dom = K.mk_obj("XmlAttr", K.DOM, attribute=attrs[nattr][0])
+            r = I.try_repo_method(recv, "set_attribute_node", [new_dom])
+            alist = [x.fields[0].fields["_name"] if isinstance(x, Enum) else x.fields["_name"] for x in P.fields["attributes"]]
+            keys = {}
+            for name, (it, o, info) in st.nodes.items():
+                keys[name] = I.try_repo_method(it, "order", [])
+            for a, info in attrs:
+                keys[a.fields["_name"]] = I.try_repo_method(a, "order", [])
+            return (r, alist, keys)
+        paths = I.explore(thunk)
+        out["paths"] = len(paths)
+        st_s = build(kinds, None)
+        new_name = names[nattr][0]
+
+        def post(p):
+            if p["kind"] == "panic":
+                return prop != "C13"
+            r, alist, keys = p["value"]
+            if not (isinstance(r, Enum) and r.variant == "Ok"):
+                return False
+            # which existing attribute carries the new name?
+            cases = []
+            none = True
+            for i in range(nattr):
+                same = sym.ceq(names[i][0][0].c, new_name[0].c)
+                want = ["attr%d" % j for j in range(nattr) if j != i] + ["attr%d" % nattr]
+                cases.append((And(none, same), want, "attr%d" % i))
+                none = And(none, Not(same))
+            cases.append((none, ["attr%d" % j for j in range(nattr)] + ["attr%d" % nattr], None))
+            alts = []
+            for cond, want, replaced in cases:
+                if prop == "C13":
+                    ret = r.fields[0]
+                    ret_ok = (isinstance(ret, Enum) and ret.variant == "None") if replaced is None else \
+                             (isinstance(ret, Enum) and ret.variant == "Some" and any(isinstance(v, Obj) and v.fields.get("_name") == replaced for v in ret.fields[0].fields.values()))
+                    alts.append(And(cond, alist == want and ret_ok))
+                else:
+                    walk = ["D", "G", "P"] + want + [n for n in preorder(st_s.tree) if n not in ("D", "G", "P")]
+                    ks = [kernel.to_bv(keys[n]) for n in walk]
+                    good = And(*[k_ != 0 for k_ in ks], *[z3.ULT(a_, b_) for a_, b_ in zip(ks, ks[1:])])
+                    if replaced is not None:
+                        good = And(good, kernel.to_bv(keys[replaced]) == 0)
+                    alts.append(And(cond, alist == want, good))
+            return Or(*alts)
+        verdict, info, nq = K.decide(I, paths, post, timeout_s)
+        out["queries"] = nq + I.feas_queries
+        out["fns"] = K.fn_table(I)
+        out["want"] = "ok"
+        if verdict == "sat":
+            mdl, p = info
+            out["status"] = "sat"
+            w = {"kinds": kinds, "gc": None, "action": "set_attribute_node", "new": ("attrs%d" % nattr,), "ref": None, "specified": "ok"}
+            if p["kind"] == "panic":
+                w["panic"] = p["msg"]
+            else:
+                r, alist, keys = p["value"]
+                w["attributes_after"] = alist
+                w["keys_after"] = {n: (K.model_int(mdl, v) if not isinstance(v, int) else v) for n, v in keys.items()}
+                w["names"] = [K.model_str(mdl, nm) for nm, _ in names]
+            out["witness"] = w
+        elif verdict == "unknown":
+            out["status"] = "unknown"
+            out["error"] = str(info)
+    except (kernel.Unsupported, nomsem.Unsupported) as e:
+        out["status"] = "unsupported"
+        out["error"] = str(e)
+    except Exception:
+        import traceback
+        out["status"] = "unsupported"
+        out["error"] = "exception: " + traceback.format_exc()[-900:]
+    out["wall"] = time.time() - t0
+    return out
+
+
 # ---- replay through the DOM API ------------------------------------------------------------------------------------
 
 def render(kinds, gc):
@@ -590,6 +712,10 @@ def jobs_for(prop, tier):
             jobs.append((prop, kinds, gc, "remove_child", ("none",), None, ref, 120))
     if prop == "C12":
         jobs += [(prop, "created_parent", True, 120), (prop, "created_parent", False, 120)]
+    if prop in ("C13", "C14"):
+        for nattr in (0, 1, 2):
+            for kinds in ((), ("Element",), ("Text", "Element")):
+                jobs.append((prop, "set_attribute_node", nattr, kinds, 120))
     return jobs
 
 
